@@ -1107,6 +1107,12 @@ func (c *RaftCluster) buryStore(storeID uint64) error {
 		return errs.ErrStoreIsUp.FastGenByArgs()
 	}
 
+	// checkStores reads the region count without the cluster lock; region heartbeats put regions under it,
+	// so the count has to be looked at again here.
+	if n := c.core.GetStoreRegionCount(storeID); n > 0 {
+		return errors.Errorf("store %d still holds %d region peers, it cannot be buried", storeID, n)
+	}
+
 	newStore := store.Clone(core.TombstoneStore())
 	log.Warn("store has been Tombstone",
 		zap.Uint64("store-id", newStore.GetID()),
